@@ -17,9 +17,13 @@ VARIABLES inflight, delivered, nsent, vec
 vars == <<inflight, delivered, nsent, vec>>
 
 ChanCfg == [ordered : BOOLEAN, rel : Rel, protocol : {"", "verif-proto"}, text : BOOLEAN]
-Space == [nch : 1..3, cfgs : [1..3 -> ChanCfg], sizes : Sizes, count : {5, 40}, side : {"offerer", "answerer"}]
+\* the network between the two endpoints: the host's loopback, or an in-process network that delays every
+\* datagram by a random time (datagrams overtake each other) and, with "loss", drops one in twenty
+Nets == {"loopback", "delay", "loss"}
+Space == [nch : 1..3, cfgs : [1..3 -> ChanCfg], sizes : Sizes, count : {5, 40}, side : {"offerer", "answerer"}, net : Nets]
 Init == /\ inflight = [c \in Chans |-> <<>>] /\ delivered = [c \in Chans |-> <<>>] /\ nsent = [c \in Chans |-> 0]
-        /\ vec \in RandomSubset(NVec, Space)
+        \* a lossy network makes bulk transfers slow (every loss costs a retransmission time-out): few messages there
+        /\ vec \in {v \in RandomSubset(NVec, Space) : v.net = "loss" => v.count = 5}
 
 Send(c) == /\ nsent[c] < NMsgs
            /\ nsent' = [nsent EXCEPT ![c] = @ + 1]
